@@ -178,6 +178,16 @@ def main(rep, tier, seed):
     outl, bad, errors = F.correspond(binpath, items, HEADER, CHECK, "c06")
     for name, msg in errors:
         rep.violation("correspondence_error_" + name.replace("/", "_"), {"kind": "correspondence could not be evaluated", "where": name, "log": msg}, no_input=True)
+    # the same cases in the release and overflow-checked-release profiles: observations must not depend on the profile
+    pdiffs, perrs = F.profile_diff("c06", items, outl, profiles=("release", "relchk")) if not errors else ([], [])
+    for name, msg in perrs:
+        rep.violation("profile_" + name, {"kind": "harness could not be built/run in another profile", "log": msg}, no_input=True)
+    for idx, prof, line in pdiffs[:3]:
+        it = items[idx]
+        rep.violation(f"profile_{prof}_case{idx}", {
+            "kind": f"the crate behaves differently in the {prof} build profile than in the dev profile (the proved model has no profile dependence)",
+            "case": {k: it[k] for k in ("kind", "store", "start", "len", "first", "data", "ops") if k in it},
+            "harness_line": it["line"], "dev_observations": outl[idx], f"{prof}_observations": line})
     hist = {}
     for it in items:
         for o in it["ops"]:
@@ -201,7 +211,7 @@ def main(rep, tier, seed):
             "harness_line": small["line"], "implementation_observations": out, "model_observations": model[-3000:],
             "original_case_index": idx, "replay": f"./check.py C06 --replay <this file>"})
     dist = {"ops_histogram": hist, "exhaustive_small_state_cases": n_exh, "random_histories": len(items) - n_exh - len(corpus),
-            "corpus_cases": len(corpus), "panic_observations": panics}
+            "corpus_cases": len(corpus), "panic_observations": panics, "profiles": ["dev (model compared)", "release (diffed against dev)", "relchk (diffed against dev)"], "profile_differences": len(pdiffs)}
     samples = [items[i]["line"] for i in (0, n_exh // 2, len(items) - 1)]
     return finish(rep, info, len(items), nontriv, dist, samples, bad)
 
